@@ -81,8 +81,10 @@ inductive Stmt where
   | binding (scope : Scope) (sel : Sel) (arg : String) (v : RawVal) (line : Nat)
   /-- header of a block `scope/sel:` -/
   | block (scope : Scope) (sel : Sel) (line : Nat)
-  /-- `import m` / `from m import n [as a]`; `found` = the module can be imported -/
-  | imp (module : String) (found : Bool) (line : Nat)
+  /-- `import m` / `from m import n [as a]`; `found` = the module can be imported; `regs` = the
+      registrations the module performs when this statement imports it for the first time (its
+      module-level `@gin.configurable` / `gin.external_configurable` calls), in order -/
+  | imp (module : String) (found : Bool) (line : Nat) (regs : List State.RegReq := [])
   /-- `include 'file'`: the statements of the included file, or `none` if nobody can read it -/
   | incl (name : String) (file : Option (List Stmt)) (line : Nat)
   /-- a statement that does not parse -/
@@ -109,7 +111,14 @@ structure ApplyOut where
 deriving Inhabited
 
 def Stmt.line : Stmt → Nat
-  | .binding _ _ _ _ l | .block _ _ l | .imp _ _ l | .incl _ _ l | .syntaxErr l => l
+  | .binding _ _ _ _ l | .block _ _ l | .imp _ _ l _ | .incl _ _ l | .syntaxErr l => l
+
+/-- running a module's registrations: the ones before a failing one stay (the module body ran that far) -/
+def registerAll (st : State) : List State.RegReq → State × Option Err
+  | [] => (st, none)
+  | r :: rest => match st.register r with
+    | .error e => (st, some e)
+    | .ok st' => registerAll st' rest
 
 def withLoc (file : Option String) (line : Nat) (f : Failure) : Failure :=
   if f.err = .syntaxError then f else { f with chain := f.chain ++ [(file, line)] }
@@ -148,8 +157,12 @@ mutual
         | .one _ _ => (st, [], [], none)
         | .ambiguous _ => (st, [], [], some (withLoc file line { err := .keyError }))
         | .none => (st, [], [], some (withLoc file line { err := .valueError }))
-    | .imp module found line =>
-      if found then (st, [module], [], none)
+    | .imp module found line regs =>
+      if found then
+        -- importing runs the module: what it registers is known from here on, in this very parse
+        match registerAll st regs with
+        | (st', none) => (st', [module], [], none)
+        | (st', some e) => (st', [], [], some (withLoc file line { err := e }))
       else if skip.truthy then (st, [], [], none)
       else (st, [], [], some (withLoc file line { err := .importError }))
     | .incl name fileStmts line =>
